@@ -611,7 +611,14 @@ func pusher(w *world, conn *hconn.Conn, seed int64, mboxIDs []imap.MailboxID) {
 			up = imap.NewMessagesDeleted(msgIDs[i])
 			msgIDs = append(msgIDs[:i], msgIDs[i+1:]...)
 		case k < 9:
-			up = imap.NewMessageIDChanged(imap.NewInternalMessageID(), imap.MessageID(fmt.Sprintf("renamed-%d", n)))
+			// an internal id that exists (the store's files are named after them), else a fresh one
+			iid := imap.NewInternalMessageID()
+			if ents, err := os.ReadDir(filepath.Join(w.s.Dir, "store", "user-0")); err == nil && len(ents) > 0 {
+				if x, err := imap.InternalMessageIDFromString(ents[rng.Intn(len(ents))].Name()); err == nil {
+					iid = x
+				}
+			}
+			up = imap.NewMessageIDChanged(iid, imap.MessageID(fmt.Sprintf("renamed-%d", n)))
 		default:
 			up = imap.NewNoop()
 		}
